@@ -27,4 +27,13 @@ a.method = "BABs9o7HSolver"
 a.set_kick_vars(mask)
 print("mask asked for:", mask, " mask used by the integrator:", a.integrator.kick_mask)
 bad += not np.array_equal(np.asarray(a.integrator.kick_mask).astype(bool), mask)
-sys.exit(1 if bad else 0)
+if bad:
+    sys.exit(1)
+
+# second defect (fixed separately): set_kick_vars while a non-splitting method is selected, then switch to a splitting method
+b = de.OdeSystem(rhs, y0=np.array([1., 0., 0.5, 0.]), t=(0, 10), dt=0.1)
+b.set_kick_vars(mask)
+b.method = "BABs9o7HSolver"
+print("set_kick_vars then method change: integrator mask", b.integrator.kick_mask)
+if not np.array_equal(np.asarray(b.integrator.kick_mask).astype(bool), mask):
+    sys.exit(1)
